@@ -233,6 +233,7 @@ def audit_types(w):
 def run(rep):
     w = rep.world('dev')
     c = w.yarel
+    r0(rep, w)
     r1(rep, w)
     r1_support(rep, w)
     r2(rep, w)
@@ -674,6 +675,68 @@ def all_paths_hit(f, start_block, hits):
 
 def may_gc(w):
     return w.can_reach({'yarel::memory::Heap::collect'})
+
+
+def r0(rep, w):
+    """the collector core's own structure (its correctness as an algorithm is trusted; these are the structural facts
+    the other rules rely on)"""
+    r = rep.rule('R0', 'collector core: unmark all, mark from the boxes with a root count, blacken until no grey box is left, keep only '
+                 'black boxes', floor=5)
+    H = 'yarel::memory::Heap::'
+    col = w.require_fn(H + 'collect', 'C01')
+    seq = [callee_name(t) for _, t in sorted(col.calls()) if callee_name(t) in (H + 'mark_roots', H + 'trace_references', H + 'sweep')]
+    r.check(seq == [H + 'mark_roots', H + 'trace_references', H + 'sweep'], 'collect = mark_roots; trace_references; sweep',
+            'the collector phases are not run in the order mark_roots, trace_references, sweep: %s' % seq, col.loc())
+    mr = w.require_fn(H + 'mark_roots', 'C01')
+    unmark = w.fns.get(H + 'mark_roots::{closure#0}')
+    um = unmark is not None and any(callee_name(t) == 'yarel::memory::GcBox::<T>::unmark' for _, t in unmark.calls())
+    r.check(um, 'mark_roots first resets every box to white', 'boxes are no longer unmarked before marking: colours of the previous cycle leak into this one', mr.loc())
+    tr = w.require_fn(H + 'trace_references', 'C01')
+    # the blacken pass must be repeated while grey boxes exist: ObjBoundMethod::blacken (and any blacken that calls mark)
+    # re-greys objects, which only a further pass turns black; sweep frees everything that is not black
+    loops = any(bi in tr.reachable_blocks(s) for bi in tr.normal_blocks() for s in tr.succs()[bi])
+    cmp0 = any(s.get('r', {}).get('rv') == 'bin' and s['r']['op'] in ('Gt', 'Ne') and (op_const(s['r']['b']) or {}).get('v') == 0
+               for b in tr.blocks for s in b['s'])
+    regrey = []
+    for im in gc_impls(w):
+        f = w.fns.get(im['blacken'] or '')
+        if f is not None and any(t['f'].get('def') == GCM + '::mark' for _, t in f.calls()):
+            regrey.append(im['s'])
+    r.check((loops and cmp0) or not regrey, 'trace_references repeats the blacken pass until the grey count is 0',
+            'trace_references makes a single pass, but %s re-grey objects while blackening and sweep keeps only black boxes: '
+            'reachable objects are freed' % (regrey or 'blacken implementations may'), tr.loc())
+    r.note('blacken implementations that re-grey (call mark): %s' % regrey)
+    sw = w.require_fn(H + 'sweep', 'C01')
+    pred = w.fns.get(H + 'sweep::{closure#2}')
+    colours = set()
+    if pred is not None:
+        for blocks in [pred.blocks] + [p['blocks'] for p in pred.raw.get('promoted', [])]:
+            for b in blocks:
+                for s in b['s']:
+                    rr = s.get('r', {})
+                    if rr.get('rv') == 'agg' and rr.get('adt') == 'yarel::memory::Colour':
+                        colours.add(rr.get('v'))
+    retain = any(strip_generics_(callee_name(t) or '') == 'std::vec::Vec::retain' for _, t in sw.calls())
+    r.check(retain and colours == {'Black'}, 'sweep retains exactly the black boxes', 'sweep no longer keeps exactly the black boxes (%s)' % sorted(colours), sw.loc())
+    gm = w.require_fn('yarel::memory::GcBox::<T>::mark', 'C01')
+    gb = w.require_fn('yarel::memory::GcBox::<T>::blacken', 'C01')
+
+    def colour_set(f):
+        out = set()
+        for blocks in [f.blocks] + [p['blocks'] for p in f.raw.get('promoted', [])]:
+            for b in blocks:
+                for s in b['s']:
+                    rr = s.get('r', {})
+                    if rr.get('rv') == 'agg' and rr.get('adt') == 'yarel::memory::Colour':
+                        out.add(rr.get('v'))
+        return out
+    r.check(colour_set(gm) == {'Grey'} and colour_set(gb) == {'Black'}, 'GcBox::mark greys, GcBox::blacken blackens',
+            'GcBox::mark/blacken use colours %s / %s' % (sorted(colour_set(gm)), sorted(colour_set(gb))), gm.loc())
+
+
+def strip_generics_(n):
+    from facts import strip_generics
+    return strip_generics(n)
 
 
 def r4(rep, w):
